@@ -608,9 +608,11 @@ Definition ref_decide (sc : scope) (cfl : flags) (f : spec) (v : node) : rdec :=
       let dict := match k with KDict => true | _ => false end in
       if route dict f then
         match bound_for dict f with
-        | None => if N.eqb (f_spec fl) 0 || Bool.eqb (f_partial fl) p then RDAccept else RDNA
+        | None => if N.eqb (f_spec fl) 0 || (Bool.eqb (f_partial fl) p && Bool.eqb (f_partial fl) (f_partial cfl)) then RDAccept else RDNA
         | Some b =>
-            if negb (N.eqb (f_spec fl) 0) && N.eqb (f_spec fl) (ref_of ev b) && Bool.eqb (f_partial fl) p then RDAccept else RDNA
+            (* (the flag must also be the container's own: a copy of the container applies its fields under that flag) *)
+            if negb (N.eqb (f_spec fl) 0) && N.eqb (f_spec fl) (ref_of ev b) && Bool.eqb (f_partial fl) p &&
+               Bool.eqb (f_partial fl) (f_partial cfl) then RDAccept else RDNA
         end
       else if N.eqb (f_spec fl) 0 then
         match Typing.apply p f (node_pv v) with Typing.Err e => RDErr (t_err e) | Typing.Ok _ => RDNA end
